@@ -338,3 +338,85 @@ M("C15-R7-literal-bare", "C15", [(E_, "            if val == \"*\" || val.parse:
 M("C15-R7-literal-bare-when-short", "C15", [(E_, "            if val == \"*\" || val.parse::<f64>().is_ok() {", "            if val == \"*\" || val.len() < 3 || val.parse::<f64>().is_ok() {")], ["key_literal-bare"])
 M("C15-V-literal-double-quotes", "C15", [(E_, "                write!(fmt, \"'{}'\", val)?;", "                write!(fmt, \"\\\"{}\\\"\", val)?;")], kind="variant")
 M("C15-V-literal-always-quoted", "C15", [(E_, "            if val == \"*\" || val.parse::<f64>().is_ok() {\n                fmt.write_str(val)?;\n            } else {\n                write!(fmt, \"'{}'\", val)?;\n            }", "            write!(fmt, \"'{}'\", val)?;")], kind="variant")
+
+# ---------------------------------------------------------------- variants pinning the rules of the fifth / sixth seed waves (must stay silent)
+M("X-LEXEMS-V-if-let-continue", "C14", [(P, """            match lexem {
+                Lexem::String(s) if s.is_empty() => {}
+                _ => self.lexems.push(lexem) 
+            }            """, """            if let Lexem::String(ref s) = lexem {
+                if s.is_empty() {
+                    continue;
+                }
+            }
+            self.lexems.push(lexem);""")], kind="variant")
+M("C19-R5-V-built-from-parts", "C19", [("src/util/datetime.rs", """    Local::now()
+        .naive_local()
+        .with_year(dt.year() as i32)
+        .unwrap()
+        .with_month(dt.month() as u32)
+        .unwrap()
+        .with_day(dt.day() as u32)
+        .unwrap()
+        .with_hour(dt.hour() as u32)
+        .unwrap()
+        .with_minute(dt.minute() as u32)
+        .unwrap()
+        .with_second(dt.second() as u32)
+        .unwrap()""", """    let stored_day = Local::now().naive_local().with_year(dt.year() as i32).unwrap().with_month(dt.month() as u32).unwrap().with_day(dt.day() as u32).unwrap();
+    let stored_hour = stored_day.with_hour(dt.hour() as u32).unwrap();
+    stored_hour.with_minute(dt.minute() as u32).unwrap().with_second(dt.second() as u32).unwrap()""")], kind="variant")
+M("C04-R3-V-open-match", "C04", [(U, """pub fn is_shebang(path: &PathBuf) -> bool {
+    if let Ok(file) = File::open(path) {""", """pub fn is_shebang(path: &PathBuf) -> bool {
+    let opened = File::open(path);
+    if let Ok(file) = opened {""")], kind="variant")
+M("X-VARIANT-V-with-sign-zero-minus", "C15", [(F, "VariantType::Float => Variant::from_float(-self.to_float()),", "VariantType::Float => Variant::from_float(0.0 - self.to_float()),")], kind="variant")
+M("C18-R3-V-contains-then-insert", "C18", [(S, """        if self.current_follow_symlinks
+            && !self.visited_dirs.insert(PathBuf::from(&canonical_path))
+        {
+            return Ok(());
+        }""", """        if self.current_follow_symlinks {
+            let key = PathBuf::from(&canonical_path);
+            if self.visited_dirs.contains(&key) {
+                return Ok(());
+            }
+            self.visited_dirs.insert(key);
+        }""")], kind="variant")
+M("C01-R8-V-root-loop-locals", "C01", [(S, """            let _result = self.visit_dir(
+                root_dir,
+                min_depth,
+                max_depth,
+                0,""", """            let top_level = 0;
+            let _result = self.visit_dir(
+                root_dir,
+                min_depth,
+                max_depth,
+                top_level,""")], kind="variant")
+M("C07-R6-V-flat-map-result", "C07", [(F, "                .filter_map(|value| value.parse::<i64>().ok()) // Parse the value and filter out errors\n                .min()", "                .flat_map(|value| value.parse::<i64>()) // Parse the value and filter out errors\n                .min()")], kind="variant")
+M("X-WBUF-V-write-all", "C09", [(S, """        } else if let Err(e) = write!(std::io::stdout(), "{}", String::from(buf)) {
+            if e.kind() == ErrorKind::BrokenPipe {
+                return Ok(false);
+            }
+        }""", """        } else if let Err(e) = std::io::stdout().write_all(String::from(buf).as_bytes()) {
+            if e.kind() == ErrorKind::BrokenPipe {
+                return Ok(false);
+            }
+        }""")], kind="variant")
+M("X-WBUF-partial-write", "C09", [(S, """        } else if let Err(e) = write!(std::io::stdout(), "{}", String::from(buf)) {
+            if e.kind() == ErrorKind::BrokenPipe {
+                return Ok(false);
+            }
+        }""", """        } else if let Err(e) = std::io::stdout().write(String::from(buf).as_bytes()) {
+            if e.kind() == ErrorKind::BrokenPipe {
+                return Ok(false);
+            }
+        }""")], ["partial-write"])
+M("C03-R6-V-negate-wraps-expansion", "C03", [(P, """        if negate {
+            if let Ok(Some(expr)) = result {
+                return Ok(Some(Self::negate_expr_op(&expr)));
+            }
+        }
+
+        result""", """        match result {
+            Ok(Some(expr)) if negate => Ok(Some(Self::negate_expr_op(&expr))),
+            other => other,
+        }""")], kind="variant")
